@@ -78,8 +78,11 @@ func proposePL(r *gen.Rand, t *ref.VersionTraits, cur *ref.Value, creators []str
 		c = randPLContent(r, t, creators)
 	}
 	nEdits := r.Range(0, 3)
+	if r.Chance(0.4) {
+		nEdits = 1 // a single edit is judged on its own merits, not masked by another edit's refusal
+	}
 	for i := 0; i < nEdits; i++ {
-		switch r.Intn(9) {
+		switch r.Intn(11) {
 		case 0, 1:
 			k := gen.Pick(r, []string{"ban", "kick", "invite", "redact", "state_default", "events_default", "users_default"})
 			if r.Chance(0.25) {
@@ -111,7 +114,7 @@ func proposePL(r *gen.Rand, t *ref.VersionTraits, cur *ref.Value, creators []str
 			} else {
 				e.Set(typ, lvl(r, t))
 			}
-		case 7:
+		case 7, 9, 10:
 			n := c.Get("notifications")
 			if n == nil || n.K != ref.Obj {
 				n = ref.O()
